@@ -8,6 +8,7 @@ import (
 	"runtime"
 
 	"fgverif/kern"
+	"fgverif/ref"
 	"fgverif/scen"
 )
 
@@ -25,6 +26,11 @@ type PipeScen struct {
 	StopAt  int           `json:"stop_at"`            // index of the flush point after which the source misbehaves; -1 = none
 	After   string        `json:"after,omitempty"`    // "block" | "error" | "garbage"
 	Garbage scen.DataSpec `json:"garbage,omitempty"`
+	// Synth: instead of a Writer history the producer sends a synthesised
+	// stream (block shapes no Writer of fastgo or the stdlib emits, e.g. a
+	// non-empty stored FINAL block); flush points are its sync markers.
+	Synth     *ref.SynthParams `json:"synth,omitempty"`
+	SynthSeed uint64           `json:"synth_seed,omitempty"`
 }
 
 type MultiScen struct {
@@ -35,6 +41,10 @@ type MultiTask struct {
 	W *scen.WScen `json:"w,omitempty"`
 	R *scen.RScen `json:"r,omitempty"`
 }
+
+type synthRngP struct{ r *kern.Rng }
+
+func (s synthRngP) Intn(n int) int { return s.r.Intn(n) }
 
 type flushPoint struct {
 	off   int
@@ -82,6 +92,28 @@ func runPipe(ps *PipeScen, sched kern.SchedSpec, fastReader bool, keep bool) (*p
 			}
 		}()
 		pipe.Producer = t
+		if ps.Synth != nil {
+			sy := ref.Synthesize(synthRngP{kern.NewRng(ps.SynthSeed)}, *ps.Synth)
+			rr := ref.Inflate(sy.Stream, ref.Options{})
+			if !rr.Complete || rr.EndByte != len(sy.Stream) {
+				res.prodErr = "synthesised stream is not one complete stream"
+				return
+			}
+			res.model = rr.Out
+			for i, off := range rr.SyncPoints {
+				res.points = append(res.points, flushPoint{off: off, model: rr.OutAtSync[i]})
+			}
+			res.points = append(res.points, flushPoint{off: len(sy.Stream), model: len(rr.Out), final: true})
+			for pos := 0; pos < len(sy.Stream); {
+				n := 1 + (pos*7+13)%977
+				if pos+n > len(sy.Stream) {
+					n = len(sy.Stream) - pos
+				}
+				pipe.Write(sy.Stream[pos : pos+n])
+				pos += n
+			}
+			return
+		}
 		w, err := scen.NewWriter(ps.W, pipe, ps.Enc == "fast")
 		if err != nil {
 			res.prodErr = err.Error()
@@ -236,7 +268,11 @@ func runPipe(ps *PipeScen, sched kern.SchedSpec, fastReader bool, keep bool) (*p
 			phase = 3
 			return false
 		}
-		if next == ps.StopAt {
+		stopAt := ps.StopAt
+		if stopAt >= len(res.points) {
+			stopAt = len(res.points) - 1
+		}
+		if next == stopAt {
 			switch ps.After {
 			case "error":
 				pipe.PostErr = injected
@@ -309,11 +345,26 @@ func (c11) Gen(r *kern.Rng, tier string, idx int) *Trace {
 		w.Ops = []scen.WOp{{K: "w", N: n1}, {K: "f"}, {K: "w", N: w.Data.Len - n1}, {K: "c"}}
 	}
 	ps := &PipeScen{W: w, Enc: r.PickS("std", "fast"), StopAt: -1}
+	if pkg == "flate" && r.Pct(15) {
+		// a synthesised stream: stored/fixed/dynamic blocks in any order, sync
+		// markers in between, any block type as the final one
+		sp := genSynthParams(r, 20000)
+		sp.SyncPct = r.Pick(30, 60, 100)
+		sp.MaxBlocks = r.Pick(2, 4, 8)
+		if r.Pct(50) {
+			sp.TypeWeights = [3]int{3, 1, 1} // stored blocks, also as the last block
+		}
+		ps.Synth, ps.SynthSeed = sp, r.Uint64()
+		w.Ops = nil
+	}
 	nflush := 0
 	for _, o := range w.Ops {
 		if o.K == "f" || o.K == "c" {
 			nflush++
 		}
+	}
+	if ps.Synth != nil {
+		nflush = 1 + r.Intn(3) // upper bound unknown before synthesis; StopAt is clamped at run time
 	}
 	switch r.Weighted(3, 3, 2, 2) {
 	case 0: // run through all points, stall at the end without EOF
